@@ -3,7 +3,14 @@
 // ObservableRegistry / AsyncMetricStorage under the scheduler; one pull reader collects on one thread while
 // another thread removes a callback or destroys the instrument.  Oracle: no callback invocation STARTS after
 // RemoveCallback (or the instrument's destruction) has returned.  (An independently seeded change made
-// ObservableRegistry::Observe run the callbacks from a copy taken under the lock.)
+// ObservableRegistry::Observe run the callbacks from a copy taken under the lock.)  The callbacks that stay
+// registered must be invoked exactly once per collection and the final, sequential collection must carry
+// their values.
+// Variants 3 and 4: two readers (one cumulative, one delta) collect concurrently from two threads on one
+// AsyncMetricStorage; the callback of an observable counter (variant 3) / gauge (variant 4) always reports
+// the same total.  Oracle: one invocation per collection; every point the cumulative reader receives is the
+// reported total; what the delta reader receives adds up to the reported total ("the difference from what
+// that same reader was last given, independent of other readers' collections"); the gauge reports the value.
 #include <opentelemetry/metrics/async_instruments.h>
 #include <opentelemetry/metrics/observer_result.h>
 #include <opentelemetry/sdk/common/global_log_handler.h>
@@ -21,8 +28,11 @@ using namespace std::chrono;
 
 namespace {
 class PullReader final : public sdkm::MetricReader {
+  sdkm::AggregationTemporality t_;
+
  public:
-  sdkm::AggregationTemporality GetAggregationTemporality(sdkm::InstrumentType) const noexcept override { return sdkm::AggregationTemporality::kCumulative; }
+  explicit PullReader(sdkm::AggregationTemporality t = sdkm::AggregationTemporality::kCumulative) : t_(t) {}
+  sdkm::AggregationTemporality GetAggregationTemporality(sdkm::InstrumentType) const noexcept override { return t_; }
   bool OnForceFlush(microseconds) noexcept override { return true; }
   bool OnShutDown(microseconds) noexcept override { return true; }
 };
@@ -33,7 +43,99 @@ struct State {
   bool released = false;           // set once RemoveCallback / destruction has returned: must not be entered any more
   bool entered_after_release = false;
 };
-struct Shared { std::atomic<int> tick{0}; } *g;
+struct Shared {
+  std::atomic<int> tick{0};
+  std::vector<std::vector<int64_t>> seen[2];  // variants 3/4: per reader, per collection: {point present, value}
+} *g;
+
+constexpr int64_t kTotal = 5;  // what the callback of variants 3/4 reports, every time
+
+// one collection; returns the int64 value of the point of stream `name` (sum or last value), or `absent`
+int64_t collect_value(sdkm::MetricReader &r, const char *name, int64_t absent) {
+  int64_t v = absent;
+  r.Collect([&](sdkm::ResourceMetrics &rm) {
+    for (auto &sm : rm.scope_metric_data_)
+      for (auto &md : sm.metric_data_) {
+        if (md.instrument_descriptor.name_ != name) continue;
+        for (auto &pda : md.point_data_attr_) {
+          if (nostd::holds_alternative<sdkm::SumPointData>(pda.point_data)) {
+            auto &sp = nostd::get<sdkm::SumPointData>(pda.point_data);
+            if (nostd::holds_alternative<int64_t>(sp.value_)) v = nostd::get<int64_t>(sp.value_);
+          } else if (nostd::holds_alternative<sdkm::LastValuePointData>(pda.point_data)) {
+            auto &lp = nostd::get<sdkm::LastValuePointData>(pda.point_data);
+            if (lp.is_lastvalue_valid_ && nostd::holds_alternative<int64_t>(lp.value_)) v = nostd::get<int64_t>(lp.value_);
+          }
+        }
+      }
+    return true;
+  });
+  return v;
+}
+constexpr int64_t kAbsent = -777;
+
+void total_callback(metrics::ObserverResult result, void *state) {
+  State *s = static_cast<State *>(state);
+  s->entered++;
+  vfs::note("cb-enter", (uint64_t)s->id, 0);
+  if (nostd::holds_alternative<nostd::shared_ptr<metrics::ObserverResultT<int64_t>>>(result))
+    nostd::get<nostd::shared_ptr<metrics::ObserverResultT<int64_t>>>(result)->Observe(kTotal);
+}
+
+// variants 3/4
+void run_two_readers(vf::Ctx &c, int variant) {
+  Shared sh;
+  g = &sh;
+  State s1{1};
+  const bool gauge = variant == 4;
+  c.stage("run");
+  vfs::begin(c);
+  vfs::set_post_release_points(true);
+  {
+    sdkm::MeterProvider provider(std::unique_ptr<sdkm::ViewRegistry>(new sdkm::ViewRegistry()), opentelemetry::sdk::resource::Resource::GetEmpty());
+    std::shared_ptr<sdkm::MetricReader> readers[2];
+    readers[0].reset(new PullReader(sdkm::AggregationTemporality::kCumulative));
+    readers[1].reset(new PullReader(sdkm::AggregationTemporality::kDelta));
+    for (auto &r : readers) provider.AddMetricReader(r);
+    auto meter = provider.GetMeter("m", "1");
+    auto inst = gauge ? meter->CreateInt64ObservableGauge("t") : meter->CreateInt64ObservableCounter("t");
+    inst->AddCallback(total_callback, &s1);
+    std::vector<std::thread> ts;
+    for (int r = 0; r < 2; ++r)
+      ts.emplace_back([&, r] {
+        int64_t v = collect_value(*readers[r], "t", kAbsent);
+        g->seen[r].push_back({v});
+        vfs::note("collected", (uint64_t)r, (uint64_t)v);
+      });
+    for (auto &t : ts) t.join();
+    for (int r = 0; r < 2; ++r) g->seen[r].push_back({collect_value(*readers[r], "t", kAbsent)});  // quiescent final collection per reader
+  }
+  vfs::end();
+  c.stage("oracle");
+  if (s1.entered != 4)
+    vfs::fail("C17:conc:registered-callback-invocations", vf::sfmt("variant %d: the registered callback was invoked %d times in 4 collections (two of them concurrent)", variant, s1.entered));
+  std::string outcome;
+  for (int r = 0; r < 2; ++r) {
+    int64_t sum = 0;
+    for (auto &v : sh.seen[r]) {
+      outcome += v[0] == kAbsent ? std::string("-,") : vf::sfmt("%lld,", (long long)v[0]);
+      if (gauge || r == 0) {
+        // gauge (either temporality) / cumulative sum: the callback reported kTotal in this very collection
+        if (v[0] != kTotal)
+          vfs::fail(gauge ? "C17:conc:gauge-not-observed-value" : "C17:conc:cumulative-not-reported-total",
+                    vf::sfmt("variant %d, reader %d (%s): a collection that ran concurrently with the other reader's %s, the callback reported %lld", variant, r, r == 0 ? "cumulative" : "delta",
+                             v[0] == kAbsent ? "produced no point" : vf::sfmt("produced %lld", (long long)v[0]).c_str(), (long long)kTotal));
+      } else if (v[0] != kAbsent) {
+        sum += v[0];
+      }
+    }
+    if (!gauge && r == 1 && sum != kTotal)
+      vfs::fail("C17:conc:delta-does-not-add-up-to-reported-total",
+                vf::sfmt("variant %d, delta reader: its collections (%s) add up to %lld, the callback reported the total %lld every time", variant, outcome.c_str(), (long long)sum, (long long)kTotal));
+    outcome += "|";
+  }
+  c.outcome(vf::sfmt("%d: ", variant) + outcome);
+  c.sample(vf::sfmt("variant=%d (%s, cumulative + delta reader collecting concurrently): callback invoked %d times, per-reader collections %s", variant, gauge ? "gauge" : "counter", s1.entered, outcome.c_str()));
+}
 
 void callback(metrics::ObserverResult result, void *state) {
   State *s = static_cast<State *>(state);
@@ -59,11 +161,14 @@ void setup(vf::Options &o) {
 void run(vf::Ctx &c) {
   // 0: RemoveCallback of the second callback of one instrument; 1: RemoveCallback on a second instrument;
   // 2: destruction of the second instrument (its last handle)
-  int variant = c.pick("variant", 3);
+  // 3, 4: two readers collecting concurrently (counter, gauge), see run_two_readers
+  int variant = c.pick("variant", 5);
+  if (variant >= 3) { run_two_readers(c, variant); return; }
   int collections = 1 + c.pick("collections", 2);
   Shared sh;
   g = &sh;
   State s1{1}, s2{2};
+  int64_t final_g1 = kAbsent;
   c.stage("run");
   vfs::begin(c);
   vfs::set_post_release_points(true);
@@ -93,11 +198,14 @@ void run(vf::Ctx &c) {
     });
     collector.join();
     remover.join();
-    // a later, sequential collection must not invoke it either
-    reader->Collect([](sdkm::ResourceMetrics &) { return true; });
+    // a later, sequential collection must not invoke it either, and reports the value of the callback that is left
+    final_g1 = collect_value(*reader, "g1", kAbsent);
   }
   vfs::end();
   c.stage("oracle");
+  if (final_g1 != 1)
+    vfs::fail("C17:conc:gauge-not-observed-value", vf::sfmt("variant %d: the final collection %s for gauge g1, its callback reported 1", variant,
+                                                            final_g1 == kAbsent ? "has no point" : vf::sfmt("reports %lld", (long long)final_g1).c_str()));
   if (s2.entered_after_release)
     vfs::fail(variant == 2 ? "C17:conc:callback-invoked-after-instrument-destroyed" : "C17:conc:callback-invoked-after-remove",
               vf::sfmt("variant %d: the callback was entered after %s had returned (%d invocations in total)", variant, variant == 2 ? "the instrument's destruction" : "RemoveCallback", s2.entered));
